@@ -72,19 +72,24 @@ func cmdVerify(args []string) {
 		}
 		for _, key := range keys {
 			fc := cf.Funcs[key]
-			if fc == nil || fc.Lemma || strings.HasPrefix(key, "iface ") {
+			if fc == nil || strings.HasPrefix(key, "iface ") {
 				if fc == nil {
 					fmt.Println("no contract for", key)
 				}
 				continue
 			}
-			fn := prog.FindFunc(pkgPath, key)
-			if fn == nil {
-				fmt.Printf("STALE-CONTRACT %s: function not found\n", key)
-				bad++
-				continue
+			var res *FuncResult
+			if fc.Lemma {
+				res = prog.VerifyLemma(fc, cf, cf.PkgTypes.Name(), "quick")
+			} else {
+				fn := prog.FindFunc(pkgPath, key)
+				if fn == nil {
+					fmt.Printf("STALE-CONTRACT %s: function not found\n", key)
+					bad++
+					continue
+				}
+				res = prog.VerifyFunc(fn, fc, cf, "quick")
 			}
-			res := prog.VerifyFunc(fn, fc, cf, "quick")
 			if res.Unsupported != "" {
 				fmt.Printf("%-50s UNSUPPORTED: %s\n", res.Name, res.Unsupported)
 				bad++
